@@ -101,8 +101,8 @@ Proof.
                           released overlap late tr] in *.
   unfold step, step_gen in H.
   destruct e;
-    unfold closed, w_queue, w_slot, w_rx, w_pc, w_passed, w_swapped, w_accepted, w_handled,
-           w_drained, w_released, w_late, w_tr, set_stopping, log, in_drop_window, drop_receiver in H;
+    unfold log, set_stopping, closed, w_queue, w_slot, w_rx, w_pc, w_passed, w_swapped, w_accepted, w_handled,
+           w_drained, w_released, w_late, w_tr, in_drop_window, drop_receiver in H;
     cbn [cap queue slot stopping rx pc passed swapped accepted handled drained
          released overlap late tr] in H.
   - (* ESendClosed *)
@@ -150,14 +150,14 @@ Proof.
   - (* EStopPush *)
     brk H; injection H as <-; constructor; cbn; auto.
   - (* EPreStart *)
-    brk H. injection H as <-. destruct D as [-> ->].
+    destruct p; try discriminate. injection H as <-. destruct D as [-> ->].
     destruct ok; constructor; cbn; auto; try (intros Hx; discriminate Hx).
   - (* EStartAck *)
-    brk H. injection H as <-. destruct D as [-> ->].
+    destruct p; try discriminate. injection H as <-. destruct D as [-> ->].
     destruct delivered; constructor; cbn; auto; try (intros Hx; discriminate Hx).
     left. split; reflexivity.
   - (* EPostStart *)
-    brk H. injection H as <-. destruct D as [-> ->].
+    destruct p; try discriminate. injection H as <-. destruct D as [-> ->].
     destruct ok; constructor; cbn; auto; try (intros Hx; discriminate Hx).
     right. left. split; reflexivity.
   - (* ESelStop *)
@@ -166,6 +166,7 @@ Proof.
   - (* ESelMsg *)
     destruct p; try discriminate.
     destruct qu as [|x q], m as [m|]; try discriminate.
+    + injection H as <-. constructor; cbn; auto.
     + destruct (msg_eqb m x); [|discriminate]. injection H as <-.
       destruct (B eq_refl) as [-> ->].
       constructor; cbn [cap queue slot stopping rx pc passed swapped accepted handled drained
@@ -174,7 +175,6 @@ Proof.
       * rewrite C. rewrite app_nil_r. reflexivity.
       * unfold shape. cbn [pc tr handled]. rewrite D, map_app. reflexivity.
       * intros Hx; discriminate Hx.
-    + injection H as <-. constructor; cbn; auto.
   - (* EHandled *)
     destruct p; try discriminate. destruct (msg_eqb m m0); [|discriminate].
     injection H as <-. destruct (B eq_refl) as [-> ->].
